@@ -126,24 +126,71 @@ Qed.
 
 Lemma bitor_value_u64 : forall k v, 0 <= bitor_value k v < 2 ^ 64.
 Proof.
-  intros k v. destruct k; cbn [bitor_value]; try apply w64_range.
-  - pose proof (s32_range v) as Hr. rewrite encodeZigZag32_zigzag by exact Hr.
-    destruct (zigzag32_spec (s32 v) Hr) as [_ [Hu _]]. unfold u32 in Hu. lia.
-  - pose proof (s64_range v) as Hr. rewrite encodeZigZag64_zigzag by exact Hr.
-    destruct (zigzag64_spec (s64 v) Hr) as [_ [Hu _]]. exact Hu.
+  intros k v.
+  assert (Z32 : forall v, 0 <= proto_encodeZigZag32 (s32 v) < 2 ^ 64).
+  { intro v0. pose proof (s32_range v0) as Hr. rewrite encodeZigZag32_zigzag by exact Hr.
+    destruct (zigzag32_spec (s32 v0) Hr) as [_ [Hu _]]. unfold u32 in Hu. lia. }
+  assert (Z64 : forall v, 0 <= proto_encodeZigZag64 (s64 v) < 2 ^ 64).
+  { intro v0. pose proof (s64_range v0) as Hr. rewrite encodeZigZag64_zigzag by exact Hr.
+    destruct (zigzag64_spec (s64 v0) Hr) as [_ [Hu _]]. exact Hu. }
+  destruct k; cbn [bitor_value]; try apply w64_range; try apply Z32; try apply Z64.
+  unfold w32. pose proof (Z.mod_pos_bound v (2 ^ 32) ltac:(lia)). lia.
 Qed.
 
-Lemma bitor_unmarshal_total : forall g v,
-  (exists x, bitor_unmarshal g v = ROk x) \/ (exists e, bitor_unmarshal g v = RErr e).
+Lemma bitor_decode_total : forall k v,
+  (exists x, bitor_decode k v = ROk x) \/ (exists e, bitor_decode k v = RErr e).
 Proof.
-  intros g v. unfold bitor_unmarshal.
+  intros k v. unfold bitor_decode.
   destruct (len v =? 0); [left; eauto|].
-  destruct (proto_decodeVarint v) as [[u n] err].
-  destruct g; cbn zeta;
-    repeat match goal with
-    | |- context [if ?c then _ else _] => destruct c
-    | |- context [match err with Some _ => _ | None => _ end] => destruct err
-    end; eauto.
+  assert (Hfin : forall (p : Z * Z * option proto_error),
+            (exists x, (let '(u, n, err) := p in
+                        match err with Some e => RErr (err_of e) | None => if n <? len v then RErr ETrailing else ROk u end) = ROk x) \/
+            (exists e, (let '(u, n, err) := p in
+                        match err with Some e => RErr (err_of e) | None => if n <? len v then RErr ETrailing else ROk u end) = RErr e)).
+  { intros [[u n] err]. destruct err; [right; eauto|]. destruct (n <? len v); eauto. }
+  apply Hfin.
+Qed.
+
+Lemma wfb_le_bytes : forall n x, wfb (le_bytes n x) = true.
+Proof.
+  induction n as [|n IH]; intro x; [reflexivity|].
+  cbn [le_bytes wfb forallb]. fold (wfb (le_bytes n (x / 256))). rewrite IH, andb_true_r.
+  unfold is_byte. pose proof (Z.mod_pos_bound x 256 ltac:(lia)). lia.
+Qed.
+
+Lemma bitor_field_spec : bitor_field_statement.
+Proof.
+  intros k number x Hnum Hx.
+  assert (HV : kind_wire k = proto_varint ->
+               bitor_field k number x = ROk (enc_field (bitor_spec_field k number x)) /\
+               wf_field (bitor_spec_field k number x) = true).
+  { intro Hw. unfold bitor_field, bitor_spec_field. rewrite Hw.
+    change (proto_varint =? proto_fixed32) with false. change (proto_varint =? proto_fixed64) with false. cbv iota.
+    apply (AppendVarint_spec [] number x Hnum Hx). }
+  assert (H32 : kind_wire k = proto_fixed32 ->
+               bitor_field k number x = ROk (enc_field (bitor_spec_field k number x)) /\
+               wf_field (bitor_spec_field k number x) = true).
+  { intro Hw. unfold bitor_field, bitor_spec_field, AppendFixed32. rewrite Hw.
+    change (proto_fixed32 =? proto_fixed32) with true. cbv iota.
+    assert (Hput : put_le32 (repeat 0 4) x = le_bytes 4 x) by (unfold put_le32, splice; cbn [repeat firstn skipn le_bytes length Z.to_nat Nat.add app]; reflexivity).
+    rewrite Hput.
+    assert (Hwf : wf_field (mkField number proto_fixed32 (le_bytes 4 x)) = true).
+    { unfold wf_field. cbn [fnum fwt fval]. rewrite wfb_le_bytes. change (proto_fixed32 =? 0) with false.
+      change (proto_fixed32 =? 1) with false. change (proto_fixed32 =? 2) with false. change (proto_fixed32 =? 5) with true.
+      cbv iota. change (len (le_bytes 4 x)) with 4. lia. }
+    split; [|exact Hwf]. apply (Append_spec [] _ Hwf). }
+  assert (H64 : kind_wire k = proto_fixed64 ->
+               bitor_field k number x = ROk (enc_field (bitor_spec_field k number x)) /\
+               wf_field (bitor_spec_field k number x) = true).
+  { intro Hw. unfold bitor_field, bitor_spec_field, AppendFixed64. rewrite Hw.
+    change (proto_fixed64 =? proto_fixed32) with false. change (proto_fixed64 =? proto_fixed64) with true. cbv iota.
+    assert (Hput : put_le64 (repeat 0 8) x = le_bytes 8 x) by (unfold put_le64, splice; cbn [repeat firstn skipn le_bytes length Z.to_nat Nat.add app]; reflexivity).
+    rewrite Hput.
+    assert (Hwf : wf_field (mkField number proto_fixed64 (le_bytes 8 x)) = true).
+    { unfold wf_field. cbn [fnum fwt fval]. rewrite wfb_le_bytes. change (proto_fixed64 =? 0) with false.
+      change (proto_fixed64 =? 1) with true. cbv iota. change (len (le_bytes 8 x)) with 8. lia. }
+    split; [|exact Hwf]. apply (Append_spec [] _ Hwf). }
+  destruct k; first [apply HV; reflexivity | apply H32; reflexivity | apply H64; reflexivity].
 Qed.
 
 (* the contract between a rewriter function and an emit function on a set of rewriters *)
@@ -301,12 +348,6 @@ Section Loop.
 End Loop.
 
 (* ---------- MessageRewriter.Rewrite against spec_msg ---------- *)
-Lemma makeFieldset_words_nonneg : forall n, 0 <= n -> 0 <= makeFieldset_words n.
-Proof.
-  intros n Hn. unfold makeFieldset_words.
-  destruct (negb (Z.rem n 64 =? 0)); apply Z.quot_pos; lia.
-Qed.
-
 Lemma msg_rewrite_refines : forall rw em n es out inp,
   wf_entries n es ->
   (forall i r, In (i, r) es -> rw_ok rw em r) ->
@@ -432,26 +473,52 @@ Proof.
     + rewrite H. cbn [rrbind]. eauto.
   - cbn [emit rewrite].
     inversion Hwf as [| | | |? ? ? ? Hnum]; subst.
-    destruct (bitor_unmarshal_total g v) as [[x Hx]|[e He]].
+    destruct (bitor_decode_total k v) as [[x Hx]|[e He]].
     + rewrite Hx. cbn [rrbind].
-      destruct (AppendVarint_spec [] number (bitor_value k (Z.lor x mask)) Hnum (bitor_value_u64 _ _)) as [HA _].
+      destruct (bitor_field_spec k number (bitor_value k (Z.lor (bitor_in g k x) mask)) Hnum (bitor_value_u64 _ _)) as [HA _].
       rewrite HA. cbn [rrbind app]. eexists. split; [reflexivity | apply sim_refl].
     + rewrite He. cbn [rrbind]. eauto.
 Qed.
 
+(* every entry has a bit in the seen-set *)
+Lemma fits_fuel : forall fuel r, (depth r <= fuel)%nat -> wf_rw r -> fits r.
+Proof.
+  induction fuel as [|fuel IH]; intros r Hd Hwf.
+  { destruct r; cbn [depth] in Hd; lia. }
+  assert (Hent : forall n es, wf_entries n es -> Forall (fun e => wf_rw (snd e)) es ->
+            (forall i r', In (i, r') es -> (depth r' <= fuel)%nat) ->
+            Forall (fun e => fst e < seen_bits n /\ fits (snd e)) es).
+  { intros n es [Hsorted Hn] HF Hdep. apply Forall_forall. intros [i r'] Hin. cbn [fst snd]. split.
+    - pose proof (sorted_from_bounds _ _ _ _ _ Hsorted Hin). pose proof (seen_bits_spec n ltac:(lia)). lia.
+    - apply IH; [eapply Hdep; eauto|]. rewrite Forall_forall in HF. apply (HF (i, r') Hin). }
+  destruct Hwf as [m Hm|rs HF|n es Hent' HF|number n es Hnum Hent' HF|g k mask number Hnum].
+  - constructor.
+  - constructor. apply Forall_forall. intros r' Hin. apply IH.
+    + pose proof (depth_multi rs r' Hin). lia.
+    + rewrite Forall_forall in HF. apply HF, Hin.
+  - constructor. apply Hent; try assumption.
+    intros i r' Hin. pose proof (depth_message n es i r' Hin). lia.
+  - constructor. apply Hent; try assumption.
+    intros i r' Hin. pose proof (depth_embedded number n es i r' Hin). lia.
+  - constructor.
+Qed.
+
+Theorem fits_all : fits_all_statement.
+Proof. intros r Hwf. apply (fits_fuel (depth r) r (le_n _) Hwf). Qed.
+
 Theorem rewrite_refines : rewrite_refines_statement.
 Proof.
-  intros r out inp Hwf Hfit Hwfb Hsz. unfold spec_rewrite, Rewrite.
-  pose proof (rewrite_refines_fuel (depth r) r (le_n _) Hwf Hfit out inp Hwfb Hsz) as H.
+  intros r out inp Hwf Hwfb Hsz. unfold spec_rewrite, Rewrite.
+  pose proof (rewrite_refines_fuel (depth r) r (le_n _) Hwf (fits_all r Hwf) out inp Hwfb Hsz) as H.
   destruct (emit (depth r) r inp) as [o|].
   - destruct H as [o' [H1 [H2 _]]]. exists o'. split; assumption.
   - exact H.
 Qed.
 
-Theorem rewrite_no_panic_partial : rewrite_no_panic_partial_statement.
+Theorem rewrite_no_panic : rewrite_no_panic_statement.
 Proof.
-  intros r out inp Hwf Hfit Hwfb Hsz.
-  pose proof (rewrite_refines r out inp Hwf Hfit Hwfb Hsz) as H.
+  intros r out inp Hwf Hwfb Hsz.
+  pose proof (rewrite_refines r out inp Hwf Hwfb Hsz) as H.
   destruct (spec_rewrite r inp).
   - destruct H as [o' [H _]]. rewrite H. split; discriminate.
   - destruct H as [e H]. rewrite H. split; discriminate.
@@ -718,9 +785,10 @@ Proof.
     apply (chunk_ok_field (mkField i 2 inner) Hwff).
     unfold enc_field. cbn [fnum fwt fval]. rewrite !len_app. lia.
   - cbn [emit] in He.
-    destruct (bitor_unmarshal g v) as [x|e| |]; try discriminate. injection He as <-.
-    destruct (AppendVarint_spec [] i (bitor_value k (Z.lor x mask)) Hi (bitor_value_u64 _ _)) as [_ Hwff].
-    apply (chunk_ok_field _ Hwff). exact Hlen.
+    destruct (bitor_decode k v) as [x|e| |]; try discriminate. injection He as <-.
+    destruct (bitor_field_spec k i (bitor_value k (Z.lor (bitor_in g k x) mask)) Hi (bitor_value_u64 _ _)) as [_ Hwff].
+    assert (Hnum : fnum (bitor_spec_field k i (bitor_value k (Z.lor (bitor_in g k x) mask))) = i) by reflexivity.
+    rewrite <- Hnum at 1. apply (chunk_ok_field _ Hwff). exact Hlen.
 Qed.
 
 (* ---------- the fuel of emit ---------- *)
@@ -789,8 +857,8 @@ Qed.
 
 Theorem rewrite_message : rewrite_message_statement.
 Proof.
-  intros n es out inp fs res Hwf Hfit Hok Hwfb Hsz Hf Hres Hlen.
-  pose proof (rewrite_refines (RwMessage n es) out inp Hwf Hfit Hwfb Hsz) as HR.
+  intros n es out inp fs res Hwf Hok Hwfb Hsz Hf Hres Hlen.
+  pose proof (rewrite_refines (RwMessage n es) out inp Hwf Hwfb Hsz) as HR.
   destruct (spec_rewrite (RwMessage n es) inp) as [o|] eqn:Hs.
   - destruct HR as [o' [HR1 HR2]]. rewrite HR1 in Hres. injection Hres as <-.
     rewrite len_app in Hlen. pose proof (len_nonneg _ out). pose proof (len_nonneg _ o').
@@ -809,5 +877,5 @@ Theorem emit_kinds : emit_kinds_statement.
 Proof.
   intros fuel v. split; [reflexivity|]. split.
   - intros number n es. cbn [emit]. destruct (fields_of v); try reflexivity.
-  - intros g k mask number x Hx. cbn [emit]. rewrite Hx. reflexivity.
+  - intros g k mask number u Hu. cbn [emit]. rewrite Hu. reflexivity.
 Qed.
